@@ -145,6 +145,7 @@ type runTracer struct {
 	dayEvents map[string]bool
 	skip      map[string]bool
 	preCnt    [3]float64  // SICKER, CAPSUM, DRAISUM before Water() (sub.pre)
+	afDsumm, afC10 float64
 	c1Move    [21]float64 // mineral N per layer before nmove() (nitro.move)
 	stopped   bool
 }
@@ -545,12 +546,46 @@ func (t *runTracer) probe(point string, g *hermes.GlobalVarsMain, extra ...inter
 			e["nrentw"] = 0
 		}
 		nstate(e, g)
+		if g.AUTOFERT && subd == 1 {
+			// what the decision table of the automatic N dressings sees (AutoFert.tla), in 1e-6 kg N/ha
+			micro := func(name string, x float64) int64 { return fx(name, x, 6) }
+			sum := func(k int) float64 {
+				v := 0.0
+				for i := 0; i < k && i < len(g.C1); i++ {
+					v += g.C1[i]
+				}
+				return v
+			}
+			kw := g.WURZ
+			if kw > 9 {
+				kw = 9
+			}
+			af := ev{"akf": a, "saat": g.SAAT[a], "stage": int(g.INTWICK.Num), "tag": int(g.TAG.Num), "wurz": g.WURZ,
+				"nd":     []int{int(g.NDOY1[a]), int(g.NDOY2[a]), int(g.NDOY3[a])},
+				"dem":    []int64{micro("NDEM1", g.NDEM1[a]), micro("NDEM2", g.NDEM2[a]), micro("NDEM3", g.NDEM3[a])},
+				"nmin30": micro("nmin30", sum(3)), "nminw": micro("nminw", sum(kw)), "c10": micro("C1[0]", g.C1[0]),
+				"orgS": g.ODU[a] == 1 && a >= 1 && g.ORGTIME[a-1] == "S", "orgdoy": g.ORGDOY[a], "ztdgCur": g.ZTDG[a], "ndirCur": micro("NDIR", g.NDIR[a]),
+				"orgHprev": false, "ztdgPrev": 0, "ndirPrev": int64(0)}
+			if a >= 1 {
+				af["orgHprev"] = g.ODU[a-1] == 1 && g.ORGTIME[a-1] == "H"
+				af["ztdgPrev"] = g.ZTDG[a-1]
+				af["ndirPrev"] = micro("NDIRprev", g.NDIR[a-1])
+			}
+			e["af"] = af
+			t.afDsumm, t.afC10 = g.DSUMM, g.C1[0]
+		}
 	case "nitro.mineral":
 		zeit, subd := extra[0].(int), extra[1].(int)
 		e["zeit"], e["subd"] = zeit, subd
 		a := g.AKF.Index
 		e["harvestday"] = zeit == g.ERNTE[a]
 		nstate(e, g)
+		if g.AUTOFERT && subd == 1 {
+			// what the block did: keys after it, N that went to the fertiliser pool (exact difference, 1e-6 kg N/ha)
+			d := new(big.Float).Sub(new(big.Float).SetFloat64(g.DSUMM), new(big.Float).SetFloat64(t.afDsumm))
+			df, _ := d.Float64()
+			e["af"] = ev{"nd": []int{int(g.NDOY1[a]), int(g.NDOY2[a]), int(g.NDOY3[a])}, "pool": fx("dDSUMM", df, 6), "ztdgCur": g.ZTDG[a]}
+		}
 	case "nitro.move":
 		zeit, subd, wdt := extra[0].(int), extra[1].(int), extra[2].(float64)
 		e["zeit"], e["subd"] = zeit, subd
